@@ -35,6 +35,21 @@ func (ll *Listeners) MarshalFlag() (string, error) {
 	return string(data), errors.WithStack(err)
 }
 
+// UnmarshalYAML reads the listeners from a configuration file: a list of the same strings that the
+// command line takes (<name>~<listen address>[~<forward address>]).
+func (ll *Listeners) UnmarshalYAML(unmarshal func(interface{}) error) error {
+	specs := make([]string, 0)
+	if err := unmarshal(&specs); err != nil {
+		return errors.Wrapf(err, "Expected a list of listener definitions (strings)")
+	}
+	for _, spec := range specs {
+		if err := ll.UnmarshalFlag(spec); err != nil {
+			return err
+		}
+	}
+	return nil
+}
+
 // UnmarshalFlag will deserialize the flag (e.g. from command line) into the Listeners slice
 func (ll *Listeners) UnmarshalFlag(data string) error {
 	data = strings.TrimSpace(data)
